@@ -947,6 +947,7 @@ func init() {
 		}
 		k := func(i int) Value { return in.tt.Const(64, uint64(i)) }
 		for i := 0; i < n-1; i++ {
+			in.freeChoices++
 			j := i + in.decideFree(n-i)
 			if j != i {
 				in.callSync(c.g, &Closure{fn: mSwap}, []Value{data.v, k(i), k(j)})
